@@ -27,6 +27,8 @@ impl ChainStorage {
     /// Returns the block at the given height
     pub fn get_block(&mut self, height: u64) -> Result<Option<Block>> {
         // Read block
+        #[cfg(rbp_verif)]
+        crate::verif::ev("lookup", &format!("\"h\":{},\"found\":{}", height, self.chain_index.get(height).is_some()));
         let block_meta = match self.chain_index.get(height) {
             Some(block_meta) => block_meta,
             None => return Ok(None),
@@ -35,12 +37,16 @@ impl ChainStorage {
         let blk_file = match self.blk_files.get_mut(&block_meta.blk_index) {
             Some(blk_file) => blk_file,
             None => {
+                #[cfg(rbp_verif)]
+                crate::verif::ev("nofile", &format!("\"h\":{},\"file\":\"{}\"", height, block_meta.blk_index));
                 return Err("Block file for block not found".into());
             }
         };
         let block = match blk_file.read_block(block_meta.data_offset, &self.coin) {
             Ok(block) => block,
             Err(e) => {
+                #[cfg(rbp_verif)]
+                crate::verif::ev("read_err", &format!("\"h\":{},\"file\":\"{}\",\"off\":\"{}\"", height, block_meta.blk_index, block_meta.data_offset));
                 return Err(format!("Unable to read block: {}", e).into());
             }
         };
@@ -50,7 +56,36 @@ impl ChainStorage {
             blk_file.close()
         }
 
+        #[cfg(rbp_verif)]
+        if crate::verif::on() {
+            let mut open: Vec<u64> = self
+                .blk_files
+                .iter()
+                .filter(|(_, f)| f.verif_is_open())
+                .map(|(k, _)| *k)
+                .collect();
+            open.sort();
+            let open: Vec<String> = open.iter().map(|k| format!("\"{}\"", k)).collect();
+            crate::verif::ev(
+                "fetched",
+                &format!(
+                    "\"h\":{},\"file\":\"{}\",\"off\":\"{}\",\"hash\":\"{}\",\"size\":{},\"ntx\":{},\"open\":[{}],\"fds\":{}",
+                    height,
+                    self.chain_index.get(height).unwrap().blk_index,
+                    self.chain_index.get(height).unwrap().data_offset,
+                    block.header.hash,
+                    block.size,
+                    block.txs.len(),
+                    open.join(","),
+                    crate::verif::fds()
+                ),
+            );
+        }
         if self.verify {
+            #[cfg(rbp_verif)]
+            let res = self.verify(&block, height);
+            #[cfg(rbp_verif)]
+            crate::verif::ev("verify", &format!("\"h\":{},\"ok\":{}", height, res.is_ok()));
             self.verify(&block, height)?;
         }
 
